@@ -26,7 +26,9 @@ RULE = ("Programs: 1-6 (thorough 1-8) reactions over 1-6 (1-8) substances in a p
         "include_params=False, bound through extra['unique']), named ('k_j'), passive/active substitutions "
         "(temperature value, RampedTemp with/without unique keys, a rate key replaced by a number or by a polynomial in "
         "temperature), cstr=True / explicit feed map, and _create_odesys (plain; with cstr_fr_fc and "
-        "parameter_expressions; both with the optional symbol arguments left out or given by the caller: "
+        "parameter_expressions overriding a string-named rate key or a unique key that has a default - and, with the "
+        "caller's parameter_symbols, a key that may keep a symbol of its own - by a number, by a0 + a1*temperature or "
+        "by a0 + a1*<another rate key>; both with the optional symbol arguments left out or given by the caller: "
         "substance_symbols as a plain dict in a permuted or in substance order or as an OrderedDict, with the caller's "
         "own symbol names and assumptions, parameter_symbols as an OrderedDict in its own key order, time_symbol).  "
         "Non-trivial = at least two reactions share a substance (every program has free "
@@ -42,7 +44,7 @@ ASSUMPTIONS = [
     "must be the symbol given for substance i, parameter named k the symbol given for key k, the independent variable "
     "the given time symbol); their names carry no meaning",
     "a builder that raises is taken to refuse the program only for the stated reasons (bare-number right-hand side: "
-    "AttributeError from pyodesys; Substance.name != key in get_odesys: KeyError / ValueError; a shared key with "
+    "AttributeError from pyodesys; a shared key with "
     "_create_odesys' default parameter symbols: ValueError 'Duplicates in keys'); any other exception is a violation",
 ]
 
@@ -134,7 +136,8 @@ def configurations(case):
 
     free   : {param name: slot}   the parameters the configuration must expose (slot says what the symbol means)
     tmode  : None | 'T' (temperature symbol or value) | 'ramp' (T = T0 + dTdt*time)
-    kpoly  : {j: (a0, a1)}  rate constant j replaced by a0 + a1*temperature
+    kpoly  : {j: (a0, a1, slot)}  rate constant j replaced by a0 + a1*<value of slot> (slot ('T',) = temperature,
+             ('par', m, 0) = the rate constant of reaction m) or, with slot None, by the plain number a0
     """
     rx = case["rxns"]
     thermal = any(r["kind"] != "ma" for r in rx)
@@ -177,7 +180,7 @@ def configurations(case):
     cfg("subst_key", style="named", include_params=False, free=dict(free, **Tfree), subst=("key", first, j))
     if rx[j]["kind"] == "ma":
         cfg("subst_expr", style="named", include_params=False, free=dict(free, temperature=("T",)), subst=("expr", first, j),
-            kpoly={m: tuple(case["pexpr_coef"]) for m in group(j)}, tmode="T")
+            kpoly={m: tuple(case["pexpr_coef"]) + (("T",),) for m in group(j)}, tmode="T")
     # (e) CSTR
     style = "numeric" if case["cstr_inline"] else "named"
     free = {} if case["cstr_inline"] else dict(allkeys)
@@ -199,14 +202,36 @@ def configurations(case):
         cfg("create", builder="create", style="named" if case["cstr_true"] else "unique", include_params=False, free=dict(allkeys))
         jp = G.leader(rx, case["pexpr_idx"])
         kp = rate_keys(jp, rx[jp])[0]
-        free = {k: v for k, v in allkeys.items() if k != kp}
-        free["temperature"] = ("T",)
+        # parameter_expressions overrides the rate key kp by a number, by a0 + a1*temperature or by a0 + a1*<another rate
+        # key>; the overridden key is a string-named parameter or a unique key with a default, and - with the caller's own
+        # parameter_symbols - may or may not have a symbol of its own.  With the default symbols _create_odesys refuses
+        # string + number (AttributeError), string + other key ("Duplicates in keys") and unique key + temperature
+        # (KeyError: no symbol is made for it): there the way the constant is written follows the kind of override.
+        px = case.get("pexpr") or {"style": "named", "kind": "polyT", "other": 0, "keep_key": False}
+        kind, pstyle = px["kind"], px["style"]
+        others = [m for m in range(len(rx)) if G.leader(rx, m) == m and m != jp]
+        if kind == "polyK" and not others:
+            kind = "polyT"
+        own_symbols = (case.get("sym") or {}).get("params") is not None
+        if not own_symbols:
+            pstyle = "named" if kind == "polyT" else "unique"
+        keep = px["keep_key"] if own_symbols else pstyle == "unique"      # kp stays a declared (unused) parameter
+        free = {k: v for k, v in allkeys.items() if k != kp or keep}
+        slot = None
+        if kind == "polyT":
+            free["temperature"] = slot = ("T",)
+        elif kind == "polyK":
+            slot = ("par", others[px["other"] % len(others)], 0)
+        coef = (case["pexpr_coef"][0], case["pexpr_coef"][1] if slot else 0, slot)
         fc = OrderedDict((k, "feed_%d" % case["subs"].index(k)) for k in case["feed_keys"])
         free["flow"] = ("fr",)
         for k, n in fc.items():
             free[n] = ("fc", k)
-        cfg("create_x", builder="create", style="named", include_params=False, free=free, cstr=("flow", fc), pexpr=True,
-            kpoly={m: tuple(case["pexpr_coef"]) for m in group(jp)}, tmode="T", pexpr_key=kp)
+        cfg("create_x", builder="create", style=pstyle, include_params=False, free=free, cstr=("flow", fc), pexpr=True,
+            kpoly={m: coef for m in group(jp)}, tmode="T" if kind == "polyT" else None, pexpr_key=kp,
+            pexpr_var=None if slot is None else "temperature" if slot == ("T",) else rate_keys(slot[1], rx[slot[1]])[0],
+            pexpr_kind="%s:%s:%s" % (pstyle, kind, "own_symbols_with_key" if own_symbols and keep else
+                                     "own_symbols_without_key" if own_symbols else "default_symbols"))
     return out
 
 
@@ -230,8 +255,11 @@ def build(M, case, c):
         if c["cstr"]:
             kw["rates_kw"] = dict(cstr_fr_fc=c["cstr"])
         if c["pexpr"]:
-            Poly = M["create_Poly"]("temperature")
-            kw["parameter_expressions"] = {c["pexpr_key"]: Poly([G.num(x) for x in case["pexpr_coef"]])}
+            a0, a1, _ = c["kpoly"][G.leader(case["rxns"], case["pexpr_idx"])]
+            if c["pexpr_var"] is None:
+                kw["parameter_expressions"] = {c["pexpr_key"]: G.num(a0)}
+            else:
+                kw["parameter_expressions"] = {c["pexpr_key"]: M["create_Poly"](c["pexpr_var"])([G.num(a0), G.num(a1)])}
         return M["_create_odesys"](rsys, **kw)
     rsys = build_rsys(M, case, c["style"])
     kw = {"include_params": c["include_params"]}
@@ -292,8 +320,10 @@ def constant_rhs(case, c):
     inlined_all = c["include_params"] or c["style"] == "numeric"
 
     def bare_number(j, rx):
-        if rx["reac"] or rx["kind"] != "ma" or j in c["kpoly"]:
+        if rx["reac"] or rx["kind"] != "ma":
             return False
+        if j in c["kpoly"]:
+            return c["kpoly"][j][2] is None         # replaced by a plain number
         return inlined_all or (isinstance(c["subst"], tuple) and c["subst"][0] == "key"
                                and c["subst"][2] == G.leader(case["rxns"], j))
     for s in case["subs"]:
@@ -377,8 +407,9 @@ def ref_eval(case, c, values):
     for j, rx in enumerate(case["rxns"]):
         par = [m(values[("par", G.leader(case["rxns"], j), i)]) for i in range(len(rx["par"]))]
         if j in c["kpoly"]:
-            a0, a1 = [m(G.frac(x)) for x in c["kpoly"][j]]
-            k = a0 + a1 * T
+            a0, a1 = [m(G.frac(x)) for x in c["kpoly"][j][:2]]
+            slot = c["kpoly"][j][2]
+            k = a0 if slot is None else a0 + a1 * (T if slot == ("T",) else m(values[slot]))
         elif rx["kind"] == "ma":
             k = par[0]
         elif rx["kind"] == "arr":
@@ -416,8 +447,11 @@ def ref_polys(case, c, inv_free):
     polys = [G.RefPoly() for _ in case["subs"]]
     for j, rx in enumerate(case["rxns"]):
         if j in c["kpoly"]:
-            a0, a1 = [G.frac(x) for x in c["kpoly"][j]]
-            kterms = [(a0, []), (a1, [("p:temperature", 1)])]
+            a0, a1 = [G.frac(x) for x in c["kpoly"][j][:2]]
+            slot = c["kpoly"][j][2]
+            kterms = [(a0, [])]
+            if slot is not None:
+                kterms.append((a1, [("p:" + ("temperature" if slot == ("T",) else inv_free[slot]), 1)]))
         elif ("par", G.leader(case["rxns"], j), 0) in inv_free:
             kterms = [(Fraction(1), [("p:" + inv_free[("par", G.leader(case["rxns"], j), 0)], 1)])]
         else:
@@ -497,10 +531,6 @@ def check_program(case, ctx):
             # some right-hand side is a bare Python number: pyodesys cannot take it and the builder raises
             # (AttributeError: 'int' object has no attribute 'free_symbols' / 'has')
             refusals.append(("constant_rhs", ("AttributeError",), "object has no attribute"))
-        if renamed and c["builder"] == "get":
-            # get_odesys labels the dependent variables with Substance.name and evaluates the rates with a dictionary keyed
-            # that way: a key that is no name is missed (KeyError); names that are None collide in pyodesys (ValueError)
-            refusals.append(("name_differs_from_key", ("KeyError", "ValueError"), ""))
         if shared and c["builder"] == "create" and (case.get("sym") or {}).get("params") is None:
             # _create_odesys derives its default parameter symbols per reaction and refuses a key met twice
             refusals.append(("shared_key_with_default_parameter_symbols", ("ValueError",), "Duplicates in keys"))
@@ -512,12 +542,12 @@ def check_program(case, ctx):
                     ctx.fail("builder_raises", cfg=name, error=repr(built))
                 ctx.label(*("rejected:" + w for w in (why or ["unexpected"])))
                 continue
-            if renamed and c["builder"] == "get":
-                ctx.label("accepted_by_get_odesys:substance_names=" + case["subnames"]["style"])
         else:
             built = build(M, case, c)
         od, extra = built
         ctx.label("cfg:" + name)
+        if c["pexpr"]:
+            ctx.label("parameter_expressions=" + c["pexpr_kind"])
         # ---- shape and names ---------------------------------------------------------------------------
         if list(od.names) != list(subs):
             ctx.fail("names_order", cfg=name, got=list(od.names), expected=list(subs))
